@@ -717,7 +717,7 @@ fn g_hist(out: &mut Out, rng: &mut Rng, count: usize) -> io::Result<()> {
                 1 => mutate(rng, &mut s),
                 _ => {}
             }
-            let entry = if cfg == 0 && rng.chance(1, 2) { 0 } else { 1 };
+            let entry = if rng.chance(1, 4) { 3 } else if cfg == 0 && rng.chance(1, 2) { 0 } else { 1 };
             l.push_str(&format!(" {} {} {}", entry, cfg, hex(&s)));
         }
         writeln!(out, "{}", l)?;
